@@ -55,9 +55,10 @@ PROOFS = [
     Proof('unlock/handle', 'unlock.c', 'h_unlock_handle', kind='L', min_obligations=2),
     Proof('adjust_range', 'rl.c', 'h_adjust', kind='L', min_obligations=4, backend='cadical', timeout=3600),
 ]
-NATIVES = []
-AUX_VIOLATION = True    # no native oracle: a failing loop-rule obligation is reported (no-failing-input-found), see DESIGN §4
+NATIVES = [Native('native', 'native.cpp', args_quick=[20000], args_thorough=[1000000], timeout=3000, link_photon=True, cxxflags=['-fpermissive'])]
+REPLAY = 'native'
+AUX_VIOLATION = True    # the native oracle covers histories on one vCPU, not every obligation: a failing loop-rule obligation is reported (no-failing-input-found), see DESIGN §4
 TRUSTED = ['cbmc 6.11.0', 'lowering rules of specs/C18/spec.py', 'std::set modelled as a sorted array with assumed lower_bound/emplace_hint/erase contracts']
-NOT_DECIDED = ['a waiter is woken when the conflicting range is unlocked and eventually acquires (condition variable + scheduler)',
+NOT_DECIDED = ['requests that denote no byte (length 0, offset 2^64-1): known finding, see known_findings.txt', 'a waiter is woken when the conflicting range is unlocked and eventually acquires (condition variable + scheduler)',
                'that ~Range() wakes the waiters (condition_variable::notify_all in a destructor run by std::set::erase)']
 ASSUMPTIONS = []
